@@ -275,10 +275,10 @@ DStmt(t, i) ==
     ELSE LET dst == DCoords(t, j + 1)  q == dst[3] IN
       IF ~dst[1] \/ q + 1 > Len(t) \/ ~DOp(t[q], ",") \/ ~(t[q + 1].k = "kw" /\ t[q + 1].v \in {"PSET", "PRESET"}) THEN SFail
       ELSE LET hasOpt == q + 3 <= Len(t) /\ DOp(t[q + 2], ",") /\ t[q + 3].k = "id" /\ t[q + 3].v \in {"B", "BF"}
-               ty == IF hasOpt THEN t[q + 3].v ELSE "L"
-               lit(w) == N4("word", w, "", "") IN
+               \* keyword operands reach the runtime as the text of the keyword ("L" when no box option is given)
+               tyw == IF hasOpt THEN N4("str", t[q + 3].s, "", "") ELSE N4("str", <<76>>, "", "") IN
            Dev(IF src[2] = <<>> THEN "HLINE-rel" ELSE "HLINE",
-               (IF src[2] = <<>> THEN << Omitted, Omitted >> ELSE src[2]) \o dst[2] \o << lit(t[q + 1].v), lit(ty) >>,
+               (IF src[2] = <<>> THEN << Omitted, Omitted >> ELSE src[2]) \o dst[2] \o << N4("str", t[q + 1].s, "", ""), tyw >>,
                IF hasOpt THEN q + 4 ELSE q + 2)
   ELSE IF tk.k = "kw" /\ tk.v \in {"HGET", "HPUT"} THEN
     LET c1 == DCoords(t, i + 1) IN
@@ -289,7 +289,7 @@ DStmt(t, i) ==
         IF ~b[1] THEN SFail
         ELSE IF tk.v = "HGET" THEN Dev("HGET", c1[2] \o c2[2] \o << b[2] >>, b[3])
         ELSE IF b[3] + 1 <= Len(t) /\ DOp(t[b[3]], ",") /\ t[b[3] + 1].k = "kw" THEN
-             Dev("HPUT", c1[2] \o c2[2] \o << b[2], N4("word", t[b[3] + 1].v, "", "") >>, b[3] + 2)
+             Dev("HPUT", c1[2] \o c2[2] \o << b[2], N4("str", t[b[3] + 1].s, "", "") >>, b[3] + 2)
         ELSE SFail
   (* ---- assignment ---- *)
   ELSE LET k == IF DKw(tk, "LET") THEN i + 1 ELSE i IN
